@@ -212,6 +212,30 @@ def i4(rep, w):
                 d = dom.get(bi, ())
                 if any(h in d for h in heq) and any(q in d for q in seq):
                     both = True
+    # ... and a slot counts as free only because the entry itself is empty (the None arm of a test on entries[index]): a side table of
+    # tags or flags can disagree with the entries ("tag 0 means free" - and the hash whose tag is 0?)
+    forg = origins(fx)
+    none_edges = set()
+    for bi in fx.normal_blocks():
+        t = fx.blocks[bi]['t']
+        if t['t'] != 'switch':
+            continue
+        qs = forg.get((op_place(t['d']) or {}).get('l'), ())
+        if qs and all('#discr' in q[1:] and (any(isinstance(tk, str) and tk.startswith('@index') for tk in q[1:]) or (q[0][0] == 'call' and (q[0][2] or '').endswith('::index'))) for q in qs):
+            none_edges |= {cb for v, cb in t['cases'] if v == 0}
+            if not any(v == 0 for v, _ in t['cases']):
+                none_edges.add(t['else'])
+    free_ok = True
+    for bi in fx.normal_blocks():
+        for s in fx.blocks[bi]['s']:
+            if s.get('d', {}).get('l') == 0 and not s['d'].get('p'):
+                d = dom.get(bi, ())
+                if any(h in d for h in heq) and any(q in d for q in seq):
+                    continue
+                if not any(e in d for e in none_edges):
+                    free_ok = False
+    r.check(free_ok and bool(none_edges), 'find_index reports a slot as free only when the entry in it is None', 'find_index returns a slot as free without testing the entry itself (the decision '
+            'comes from a side table or a sentinel): a filled slot that looks free is overwritten, or - on look-up - another string is taken for the one asked for', fx.loc())
     r.check(bool(heq) and bool(seq) and both, 'find_index matches a filled slot only on equal hash and equal text',
             'find_index returns a filled slot without comparing both the hash and the text: different strings can be identified', fx.loc())
     # single probe implementation: outside find_index, slots of the table are only addressed by an index that find_index
